@@ -121,7 +121,7 @@ def _run(events: list) -> bool:
                     continue
             ref.before_event(ev)
             if not s.apply(ev):
-                return True
+                return track.pruned()  # event not enabled here
             if ev in (E.DRAIN, E.TURN, E.TIMER, E.LONGWAIT):
                 ref.after_iteration(was_closed)
             else:
